@@ -52,7 +52,7 @@ ASSUMPTIONS = [
     "dataset reading is avoided (missing dataset file): update_source's dataset branch is outside this check",
 ]
 
-_N = {"quick": 2400, "thorough": 40000}
+_N = {"quick": 1600, "thorough": 30000}
 
 
 def budget(tier):
@@ -565,6 +565,18 @@ def change_class(kind, old_recs, new_recs):
         if len(o) == len(n) and all(a == b or (_theta_norm(a) == _theta_norm(b) and len(r) >= 2)
                                     for a, b, r in zip(o, n, [r for r in old_recs if _kind(r) == "THETA"])):
             return "respells-bounds-of-multi-theta-record"
+    if kind == "PK":
+        import difflib
+        o = "".join(str(r) for r in old_recs if _kind(r) == "PK").splitlines()
+        n = "".join(str(r) for r in new_recs if _kind(r) == "PK").splitlines()
+        des = "".join(str(r) for r in old_recs if _kind(r) == "DES")
+        lhs = lambda line: (re.match(r"\s*([A-Za-z_]\w*)\s*=", line) or [None, None])[1]
+        des_lhs = {lhs(x).upper() for x in des.splitlines() if lhs(x) and not lhs(x).upper().startswith("DADT")}
+        d = list(difflib.ndiff(o, n))
+        added = [x[2:] for x in d if x.startswith("+ ")]
+        removed = [x[2:] for x in d if x.startswith("- ")]
+        if des_lhs and added and not removed and all(lhs(x) and lhs(x).upper() in des_lhs for x in added):
+            return "copies-des-assignment-into-pk"
     return "changes-" + kind
 
 
